@@ -9,7 +9,7 @@ import ast
 import re
 from typing import Dict, List, Set
 
-from sa.pm import Program, FuncInfo, ClassInfo, dotted, norm, calls_in, walk_no_nested, AnalysisError
+from sa.pm import Program, FuncInfo, ClassInfo, dotted, norm, calls_in, walk_no_nested, AnalysisError, kwarg
 from sa.alias import AliasModel, FRESH
 
 EXPLANATION = (
@@ -517,6 +517,79 @@ def antichain_network(prog: Program, rep, RID: str):
         rep.ok(RID, key, "cost 1 exactly on the edges leaving the source", f"{f.module.relpath}:{calls[0][2]}")
 
 
+def antichain_numerics(prog: Program, rep, RID: str):
+    """Numeric soundness of the antichain / min-cost-flow substrate for all non-negative weights: (a) a saturated cut edge belongs to
+    the antichain iff its weight is positive (not: >= 1, which drops fractional weights); (b) the supply of the auxiliary flow
+    exceeds every feasible flow value (sum of the demands) and the arcs are not capped by a constant; (c) an ignored edge listed
+    twice is ignored once."""
+    f = prog.own_method("stDAG", "compute_max_edge_antichain")
+    tests = [c for c in ast.walk(f.node) if isinstance(c, ast.Compare) and len(c.ops) == 1 and norm(c.left).startswith("demand[")
+             and isinstance(c.comparators[0], ast.Constant)]
+    key = "stDAG.compute_max_edge_antichain:positive-weight-test"
+    if not tests:
+        raise AnalysisError("compute_max_edge_antichain: the weight test of the saturated cut edges was not found")
+    for c in tests:
+        op, k = c.ops[0], c.comparators[0].value
+        if (isinstance(op, ast.Gt) and k == 0) or (isinstance(op, ast.NotEq) and k == 0):
+            rep.ok(RID, key, f"`{norm(c)}`: every edge of positive weight can be in the antichain", f.loc(c))
+        elif isinstance(op, ast.GtE) and k == 1:
+            rep.violation(RID, key, f"`{norm(c)}` stands for 'has positive weight' only for integer weights: edges with a weight in (0, 1) are dropped from the antichain "
+                          "(a->b with weight 0.5 gives an empty antichain and the method's own assertion fails)", f.loc(c))
+        else:
+            raise AnalysisError(f"compute_max_edge_antichain: weight test `{norm(c)}` not understood")
+    # (b) supply and capacities
+    g = prog.function("flowpaths.utils.graphutils", "min_cost_flow")
+    from rules.common import all_local_defs
+    defs = all_local_defs(g.node)
+    sup = None
+    for c in calls_in(g.node):
+        if isinstance(c.func, ast.Attribute) and c.func.attr == "add_node" and c.args and norm(c.args[0]) in ("s", "t"):
+            d = kwarg(c, "demand")
+            if d is not None:
+                sup = d
+    key = "graphutils.min_cost_flow:supply"
+    if sup is None:
+        raise AnalysisError("min_cost_flow: supply of the source / sink not found")
+    e = sup.operand if isinstance(sup, ast.UnaryOp) else sup
+    seen = 0
+    while isinstance(e, ast.Name) and e.id in defs and seen < 3:
+        e = defs[e.id]
+        seen += 1
+    if any(isinstance(n, ast.Call) and dotted(n.func) == "sum" and "demands_attr" in norm(n) for n in ast.walk(e)):
+        rep.ok(RID, key, f"supply `{norm(e)[:80]}` exceeds the sum of the demands", g.loc())
+    elif norm(e) in ("bigNumber", "graphutils.bigNumber") or isinstance(e, ast.Constant):
+        rep.violation(RID, key, f"the supply of the auxiliary flow is the constant `{norm(e)}`: when the maximum antichain weighs more, the flow is infeasible, the blanket "
+                      "except returns (None, None) and the antichain query returns None or raises TypeError (a->b with weight 2**32+1)", g.loc())
+    else:
+        raise AnalysisError(f"min_cost_flow: supply `{norm(e)[:80]}` not understood")
+    caps = [kwarg(c, "u") for c in calls_in(f.node) if isinstance(c.func, ast.Attribute) and c.func.attr == "add_edge" and kwarg(c, "u") is not None]
+    key = "stDAG.compute_max_edge_antichain:capacity"
+    if not caps:
+        raise AnalysisError("compute_max_edge_antichain: arc capacity not found")
+    ctxt = norm(caps[0])
+    if ctxt in ("float('inf')", 'float("inf")', "math.inf", "np.inf", "inf"):
+        rep.ok(RID, key, "arcs are uncapacitated", f.loc())
+    elif "bigNumber" in ctxt or isinstance(caps[0], ast.Constant):
+        rep.violation(RID, key, f"every arc of the antichain network is capped by the constant `{ctxt}`: weights above it make the auxiliary flow infeasible", f.loc())
+    else:
+        raise AnalysisError(f"compute_max_edge_antichain: capacity `{ctxt}` not understood")
+    # (c) ignored edges are a set in stDiGraph.get_width
+    h = prog.own_method("stDiGraph", "get_width")
+    loops = [lp for lp in ast.walk(h.node) if isinstance(lp, ast.For) and "edges_to_ignore" in norm(lp.iter) and
+             any(isinstance(x, ast.AugAssign) and isinstance(x.op, ast.Sub) for x in ast.walk(lp))]
+    key = "stDiGraph.get_width:ignored-edges-once"
+    if not loops:
+        raise AnalysisError("stDiGraph.get_width: the loop decrementing the multiplicities of ignored edges was not found")
+    it = loops[0].iter
+    hdefs = all_local_defs(h.node)
+    src = hdefs.get(it.id) if isinstance(it, ast.Name) else it
+    if src is not None and isinstance(src, ast.Call) and dotted(src.func) in ("set", "frozenset"):
+        rep.ok(RID, key, f"multiplicities are decremented once per distinct ignored edge (`{norm(src)[:60]}`)", h.loc(loops[0]))
+    else:
+        rep.violation(RID, key, f"the multiplicity of a condensation edge is decremented once per entry of `{norm(it)}`: an edge listed twice in edges_to_ignore removes two "
+                      "parallel edges between the components and the width is under-estimated (stDAG.get_width uses a set)", h.loc(loops[0]))
+
+
 def check(prog: Program, rep):
     am = AliasModel(prog)
     rep.rule("C17.R1", "cache ownership", floor=9)
@@ -536,3 +609,6 @@ def check(prog: Program, rep):
     from rules.c09 import width_cache
     rep.rule("C17.R3b", "width cache key", floor=4)
     width_cache(prog, rep, "C17.R3b")
+    rep.rule("C17.R7", "antichain / min-cost-flow numerics: positive-weight test, supply above the sum of demands, uncapacitated arcs, ignored edges counted once", floor=4)
+    antichain_numerics(prog, rep, "C17.R7")
+
